@@ -41,6 +41,42 @@ def array_fields(obj):
     return out
 
 
+def restore_preconditions(ctx, eff):
+    """`editRestoreMask_id` needs every entry flagged by np.isinf to equal the constant written
+    back (+inf: no -inf entry); `editRestoreDiag_id` needs the diagonal to hold the constant
+    written back (0).  Both are facts about path-length matrices; they are probed here on the
+    arrays the restored edits act on (path_lengths of Network objects, with and without a link
+    attribute, connected or not, directed or not)."""
+    from pyunicorn.core import Network
+    rng = ctx.rng
+    forms = sorted({(r["func"], r.get("form")) for r in eff["table"] if r["verdict"] == "restored"})
+    bad = []
+    n_arr = 0
+    for rep in range(40):
+        n = rng.randrange(2, 9)
+        directed = rng.random() < 0.4
+        A = np.zeros((n, n), dtype=int)
+        for i in range(n):
+            for j in range(n):
+                if i != j and rng.random() < rng.choice([0.0, 0.2, 0.5]):
+                    A[i, j] = 1
+                    if not directed:
+                        A[j, i] = 1
+        net = Network(adjacency=A, directed=directed, silence_level=3)
+        W = np.abs(np.random.RandomState(rep).randn(n, n)) + 0.1
+        net.set_link_attribute("w", W if directed else (W + W.T) / 2)
+        for key in ((None, "w") if A.any() else (None,)):
+            P = quiet(net.path_lengths, key)
+            n_arr += 1
+            if np.isneginf(P).any():
+                bad.append(f"path_lengths({key}) has a -inf entry: A={A.tolist()}")
+            if P.shape[0] == P.shape[1] and np.any(np.diag(P) != 0):
+                bad.append(f"path_lengths({key}) has a non-zero diagonal: A={A.tolist()}")
+    ctx.obligation(f"preconditions of the restore theorems (no -inf entry, zero diagonal) hold on "
+                   f"the arrays the restored edits act on ({n_arr} path-length matrices; restored "
+                   f"edits: {forms})", "correspondence", not bad, "\n".join(bad[:5]))
+
+
 def run(ctx):
     rng = ctx.rng
     quick = ctx.tier == "quick"
@@ -56,6 +92,8 @@ def run(ctx):
         "restored": sum(1 for r in eff["table"] if r["verdict"] == "restored"),
         "unrestored": [f'{r["module"]}:{r["cls"]}.{r["func"]}:{r["line"]}' for r in eff["table"]
                        if r["verdict"] == "unrestored"]}
+
+    restore_preconditions(ctx, eff)
 
     reqs, impl = [], []
     tables = json.load(open(os.path.join(common.LEAN, "Pyunicorn", "Generated",
